@@ -26,6 +26,8 @@ Leaves == {[ok |-> TRUE, dn |-> Base, shape |-> "base"], [ok |-> TRUE, dn |-> Ri
            \* a multi-valued RDN of DISTINCT attribute types is an ordinary attribute map once the certificate is parsed
            [ok |-> TRUE, dn |-> With(Base, "OU", "MultiValued"), shape |-> "multiRDN"], [ok |-> FALSE, dn |-> Base, shape |-> "dupAttr"],
            [ok |-> TRUE, dn |-> With(Base, "O", "Acme "), shape |-> "paddedO"],      \* a value that ends with a blank
+           \* a mandatory attribute that is present with an EMPTY value is as good as missing: not interpretable
+           [ok |-> FALSE, dn |-> Base, shape |-> "emptyST"],
            [ok |-> FALSE, dn |-> Base, shape |-> "missingST"], [ok |-> FALSE, dn |-> Base, shape |-> "hashForm"]}
 
 X(dn) == [kind |-> "x509", dn |-> dn]
